@@ -24,8 +24,8 @@ PROPERTY = "C15"
 SHARDS = {"quick": 8, "thorough": 16}
 RULE = ("load: Hypothesis draws a response list (1-60 rows, rating palette of 1-5 classes out of 0..10), "
         "a value mode (unit / signed / wide 1e+-30 / ties incl. zeros) with a RandomState seed, a list of "
-        "NaN/+inf/-inf operations (single cell, whole row, whole column, all-but-k rows of one rating class "
-        "in one column), a feature-name list in arbitrary order (duplicates, binary names) or None, a "
+        "NaN/+inf/-inf operations (single cell, j-th row of one rating class, all-but-k rows of one rating class "
+        "in one column, random sprinkle, whole row, whole column), a feature-name list in arbitrary order (duplicates, binary names) or None, a "
         "which_type, a text format and a tag column; every case is loaded with all 8 flag combinations. "
         "non-trivial = at least one NaN or infinity in a selected column (the loader has something to clean). "
         "export: 1-5 save operations (synthetic curve, recorded curve, re-rating of an earlier curve) into one "
@@ -359,6 +359,11 @@ def build_matrix(case, tagname):
         c = op["c"] % ncol
         if op["t"] == "row":
             M[op["r"] % n, free] = v
+        elif op["t"] == "sprinkle":
+            hit = np.random.RandomState(op["seed"]).uniform(size=(n, ncol)) < op["p"]
+            if tagc >= 0:
+                hit[:, tagc] = False
+            M[hit] = v
         elif c == tagc:
             continue
         elif op["t"] == "cell":
@@ -368,6 +373,10 @@ def build_matrix(case, tagname):
         elif op["t"] == "class":
             members = [i for i in range(n) if resp[i] == op["k"]][op["skip"]:]
             M[members, c] = v
+        elif op["t"] == "classcell":
+            members = [i for i in range(n) if resp[i] == op["k"]]
+            if members:
+                M[members[op["j"] % len(members)], c] = v
     return M
 
 
@@ -423,17 +432,24 @@ def st_load(draw):
     palette = draw(st.lists(st.integers(0, 10), min_size=1, max_size=5, unique=True))
     if draw(st.booleans()) and 0 not in palette:
         palette.append(0)
-    maxrows = draw(st.sampled_from([1, 2, 4, 12, 60, 60]))
-    resp = draw(st.lists(st.sampled_from(palette), min_size=1, max_size=maxrows))
+    lo, hi = draw(st.sampled_from([(1, 1), (2, 5), (2, 5), (6, 20), (6, 20), (6, 20), (21, 60), (21, 60)]))
+    resp = draw(st.lists(st.sampled_from(palette), min_size=lo, max_size=hi))
     val = st.sampled_from(["nan", "nan", "nan", "inf", "-inf"])
+    mostly_nan = st.sampled_from(["nan"] * 8 + ["inf", "-inf"])
     col = st.integers(0, len(allf) - 1)
+    rating = st.sampled_from([0, 0, 0, 0] + list(range(11)))
+    cell = st.fixed_dictionaries({"t": st.just("cell"), "r": st.integers(0, 59), "c": col, "v": val})
+    classcell = st.fixed_dictionaries({"t": st.just("classcell"), "k": rating, "j": st.integers(0, 59),
+                                       "c": col, "v": val})
     op = st.one_of(
-        st.fixed_dictionaries({"t": st.just("cell"), "r": st.integers(0, 59), "c": col, "v": val}),
-        st.fixed_dictionaries({"t": st.just("cell"), "r": st.integers(0, 59), "c": col, "v": val}),
-        st.fixed_dictionaries({"t": st.just("row"), "r": st.integers(0, 59), "c": st.just(0), "v": val}),
-        st.fixed_dictionaries({"t": st.just("col"), "c": col, "v": val}),
-        st.fixed_dictionaries({"t": st.just("class"), "k": st.sampled_from([0, 0, 0] + list(range(11))),
-                               "skip": st.integers(0, 2), "c": col, "v": val}),
+        cell, cell, cell, classcell, classcell, classcell,
+        st.fixed_dictionaries({"t": st.just("class"), "k": rating, "skip": st.integers(0, 3), "c": col,
+                               "v": mostly_nan}),
+        st.fixed_dictionaries({"t": st.just("sprinkle"), "seed": st.integers(0, 10 ** 6),
+                               "p": st.sampled_from([0.01, 0.03, 0.1]), "c": st.just(0), "v": val}),
+        st.one_of(st.fixed_dictionaries({"t": st.just("row"), "r": st.integers(0, 59), "c": st.just(0),
+                                         "v": mostly_nan}),
+                  st.fixed_dictionaries({"t": st.just("col"), "c": col, "v": mostly_nan})),
     )
     names = draw(st.one_of(
         st.none(),
@@ -445,7 +461,7 @@ def st_load(draw):
     fmt = draw(st.sampled_from(FORMATS))
     return {"kind": "load", "resp": resp, "seed": draw(st.integers(0, 2 ** 31 - 1)),
             "mode": draw(st.sampled_from(["unit", "signed", "wide", "ties"])),
-            "ops": draw(st.lists(op, max_size=8)), "names": names,
+            "ops": draw(st.lists(op, max_size=10)), "names": names,
             "which_type": draw(st.sampled_from(WHICH)), "fmt": fmt,
             "resp_fmt": draw(st.sampled_from([fmt, fmt, "%d"])), "tag": draw(st.integers(0, 14))}
 
@@ -463,7 +479,8 @@ def check_weights(case, ctx):
 @st.composite
 def st_weights(draw):
     palette = draw(st.lists(st.integers(0, 10), min_size=1, max_size=11, unique=True))
-    y = draw(st.lists(st.sampled_from(palette), min_size=1, max_size=draw(st.sampled_from([3, 20, 300]))))
+    lo, hi = draw(st.sampled_from([(1, 3), (4, 20), (4, 20), (21, 300)]))
+    y = draw(st.lists(st.sampled_from(palette), min_size=lo, max_size=hi))
     return {"kind": "weights", "y": y, "float": draw(st.booleans())}
 
 
@@ -680,9 +697,9 @@ def dispatch(case, ctx):
 def run(ctx):
     feature_names()
     ctx.enumerate(fixed_cases(), dispatch, label="fixed", stop_after=10)
-    ctx.hypothesis(st_load(), check_load, ctx.scale(4000, 120000), label="load")
-    ctx.hypothesis(st_weights(), check_weights, ctx.scale(1600, 40000), label="weights")
-    ctx.hypothesis(st_export(), check_export, ctx.scale(48, 960), label="export")
+    ctx.hypothesis(st_load(), check_load, ctx.scale(10000, 200000), label="load")
+    ctx.hypothesis(st_weights(), check_weights, ctx.scale(4000, 80000), label="weights")
+    ctx.hypothesis(st_export(), check_export, ctx.scale(96, 1600), label="export")
 
 
 def replay(case, ctx):
